@@ -293,10 +293,13 @@ class YieldLock(object):
     window between whatever was read or done before and the critical section
     '''
 
-    def __init__(self, lock, seed, name='lock', sleeps=None):
+    def __init__(self, lock, seed, name='lock', sleeps=None, gate=None):
         self._lock, self._seed, self._name = lock, seed, name
         self._sleeps = sleeps or [0, 0, 0.0002, 0.0005, 0.001, 0.002]
         self._rngs   = dict()
+        self._gate   = gate      # called before every acquisition: may let
+                                 # another thread run to a chosen point first
+                                 # (a preemption here can be arbitrarily long)
 
     def _rng(self):
         import random
@@ -309,6 +312,8 @@ class YieldLock(object):
 
     def _nap(self):
         import time
+        if self._gate:
+            self._gate()
         time.sleep(self._rng().choice(self._sleeps))
 
     def __enter__(self):
